@@ -34,6 +34,8 @@ VQE = "tangelo/algorithms/variational/vqe_solver.py"
 UCCSD = "tangelo/toolboxes/ansatz_generator/uccsd.py"
 RDMS = "tangelo/toolboxes/molecular_computation/rdms.py"
 HEA = "tangelo/toolboxes/ansatz_generator/hea.py"
+BOOT = "tangelo/toolboxes/post_processing/bootstrapping.py"
+GROUP = "tangelo/toolboxes/measurements/qubit_terms_grouping.py"
 ISP = "tangelo/toolboxes/molecular_computation/integral_solver_pyscf.py"
 
 FIRE = [
@@ -82,6 +84,11 @@ FIRE = [
     ("trim-idle-qubit-state-one", "C14", [(TRIM, "    for qubit_idx in set(range(circuit.width)) - used_qubits:\n        trim_states[qubit_idx] = 0", "    for qubit_idx in set(range(circuit.width)) - used_qubits:\n        trim_states[qubit_idx] = 1")], "K9.trim-fold"),
     ("trim-loses-unclassified-pair", "C14", [(TRIM, "                else:\n                    circuit_new += circ\n            else:\n                circuit_new += circ\n", "                else:\n                    circuit_new += circ\n")], "K9.trim-fold"),
     ("trim-hadamard-as-phase", "C14", [(TRIM, '            if gate0.name in {"RZ", "Z"}:\n                qubit_idx = e_indices[i].pop()\n                trim_states[qubit_idx] = 0\n            elif gate0.name in {"X", "RX"} and gate_0_is_bitflip:', '            if gate0.name in {"RZ", "Z", "H"}:\n                qubit_idx = e_indices[i].pop()\n                trim_states[qubit_idx] = 0\n            elif gate0.name in {"X", "RX"} and gate_0_is_bitflip:')], "K9.trim"),
+    ("resample-last-chunk-dropped", "C18", [(BOOT, "    for i in range(n_chunks+1):", "    for i in range(n_chunks):")], "K9"),
+    ("resample-bitstring-width-lost", "C18", [(BOOT, '    format_specifier = "0"+str(n_qubits)+"b"', '    format_specifier = "b"')], "K9"),
+    ("qwc-any-shared-qubit-agrees", "C18", [(GROUP, "    for i in set(b1_dict) & set(b2_dict):\n        if b1_dict[i] != b2_dict[i]:\n            return False\n    return True", "    for i in set(b1_dict) & set(b2_dict):\n        if b1_dict[i] == b2_dict[i]:\n            return True\n    return not (set(b1_dict) & set(b2_dict))")], "K9.assembly"),
+    ("group-qwc-keeps-larger", "C18", [(GROUP, "        if len(res2) < len(res):", "        if len(res2) > len(res):")], "K9.assembly"),
+    ("exp-value-coefficient-of-other-basis", "C18", [(GROUP, "    for basis, freqs in histograms.items():\n        for term, coef in sub_ops[basis].terms.items():", "    for basis, freqs in histograms.items():\n        for term, coef in list(sub_ops.values())[0].terms.items():")], "K9.assembly"),
     # ---- C06
     ("ladder-not-reversed", "C06", [(AU, "    gates += cnot_ladder_gates[::-1]", "    gates += cnot_ladder_gates")], "K9.exp-pauliword"),
     ("negative-angle-offset", "C06", [(AU, "    angle = 2.*coef if coef >= 0. else 4*np.pi+2*coef", "    angle = 2.*coef if coef >= 0. else 2*np.pi+2*coef")], "K9.angle-law"),
@@ -186,6 +193,9 @@ SILENT = [
     ("trim-y-flips-too", "C14", [(TRIM, '            elif gate0.name in {"X", "RX"} and gate_0_is_bitflip:\n                qubit_idx = e_indices[i].pop()\n                trim_states[qubit_idx] = 1\n            else:', '            elif gate0.name in {"X", "RX", "Y", "RY"} and gate_0_is_bitflip:\n                qubit_idx = e_indices[i].pop()\n                trim_states[qubit_idx] = 1\n            else:')]),
     ("reorder-arange-spelling", "C12", [(MT, "    remapped = np.linspace(0, n_spinorbitals - 1, n_spinorbitals, dtype=int)//2\n    remapped[1::2] += int(np.ceil(n_spinorbitals / 2.))", "    remapped = np.arange(n_spinorbitals)//2\n    remapped[1::2] += n_spinorbitals // 2")]),
     ("vector-reorder-spelling", "C12", [(SV, "    if up_then_down:\n        vector = np.concatenate((vector[::2], vector[1::2]))", "    if up_then_down:\n        alpha, beta = vector[0::2], vector[1::2]\n        vector = np.concatenate((alpha, beta))")]),
+    ("qwc-check-spelling", "C18", [(GROUP, "    for i in set(b1_dict) & set(b2_dict):\n        if b1_dict[i] != b2_dict[i]:\n            return False\n    return True", "    return all(b1_dict[i] == b2_dict[i] for i in b1_dict if i in b2_dict)")]),
+    ("resample-format-spelling", "C18", [(BOOT, '    format_specifier = "0"+str(n_qubits)+"b"', '    format_specifier = f"0{n_qubits}b"')]),
+    ("group-qwc-spelling", "C18", [(GROUP, "        if len(res2) < len(res):\n            res = res2", "        res = res2 if len(res2) < len(res) else res")]),
     ("angle-law-spelling", "C06", [(AU, "    angle = 2.*coef if coef >= 0. else 4*np.pi+2*coef", "    angle = 2.*coef + (0. if coef >= 0. else 4*np.pi)")]),
     ("cirq-branches-reordered", "C01", [(TCIRQ, '        elif gate_name in {"SWAP"}:\n            target_circuit.append(GATE_CIRQ[gate_name](qubit_list[gate.target[0]], qubit_list[gate.target[1]]))\n        elif gate_name in {"CSWAP"}:\n            next_gate = GATE_CIRQ[gate_name].controlled(num_controls)\n            target_circuit.append(next_gate(*control_list, qubit_list[gate.target[0]], qubit_list[gate.target[1]]))\n',
                                          '        elif gate_name in {"CSWAP"}:\n            next_gate = GATE_CIRQ[gate_name].controlled(num_controls)\n            target_circuit.append(next_gate(*control_list, qubit_list[gate.target[0]], qubit_list[gate.target[1]]))\n        elif gate_name in {"SWAP"}:\n            target_circuit.append(GATE_CIRQ[gate_name](qubit_list[gate.target[0]], qubit_list[gate.target[1]]))\n')]),
